@@ -24,6 +24,8 @@ CLAIMED = {
             '§4 C12', 'TLC; LayoutTrace!Rel'),
     'C20': ('layout', 'eligibility computed by TLC from the RVC DECODER over all 65,536 halfwords (independent of the assembler\'s criteria table); every literal instruction around every RVC operand-set boundary (LitSpace, ~25k instructions) and in-context programs must be 16-bit when eligible; NotLonger / LabelsNotLater / per-item never longer on all enumerated programs',
             '§4 C20', 'TLC; RVCDec!Expand'),
+    'C05': ('sem', 'TLC enumerates the instance space of all 27 pseudo-instructions (PseudoSpace: registers incl. x0/sp/rd=rs, target before/after at 10-11 distance classes, li over every low-12-bit value x 24 upper classes); the bytes the real assembler emits for each (both modes) are decoded and EXECUTED by the TLA+ single-step semantics (RV32Exec) from 1/8/64 register files and compared with the documented effect (SemTrace)',
+            '§4 C05', 'TLC; RV32Exec/RV32Dec/RVCDec; docs/instruction_reference.rst transcribed as SemTrace!Effect'),
     'C18': ('dfu', 'TLC exhaustive model checking of the host (shaped like dfu.cli_main) composed with a DfuSe device over all lengths, busy/poll-delay schedules, start states and failing operations within small constants (+ liveness under fairness, + named deviations that each invariant must catch); every exported TLC behaviour replayed into the real dfu.cli_main(); TLC trace validation (DfuTrace) of ~2000 recorded real runs (4 flash variants, boundary/swept lengths, random timing) in which TLC recomputes the flash from the requests',
             '§4 C18', 'TLC; DfuDevice.tla as the reading of DFU 1.1/DfuSe; fake usb module + patched time.sleep record faithfully'),
     'C19': ('dfu', 'same model and trace validation as C18 with every oversize class and every single / double device-error injection at every erase / write step; clauses OversizeRefusedBeforeAnyDnload and ErrorNeverAnnouncedDone judged by TLC on every recorded run',
@@ -68,6 +70,8 @@ def main():
              'kind_free_text': 'TLA+ decoders/contract (RV32Dec, RVCDec, AsmEncode, HiLoOps) + TLC model checking + TLC trace validation of recorded encoder results'},
             {'name': 'layout', 'path': 'harness/engines/layout.py', 'serves_properties': ['C03', 'C04', 'C08', 'C09', 'C12', 'C20'],
              'kind_free_text': 'TLC enumerates abstract programs (AsmProgs, LitSpace); the real assembler is run on their rendering in both modes; TLC validates the recorded per-line bytes and label tables against the reference semantics (AsmRef, LayoutTrace)'},
+            {'name': 'sem', 'path': 'harness/checks_sem.py', 'serves_properties': ['C05'],
+             'kind_free_text': 'TLA+ decoder + single-step RV32 semantics executing recorded machine code of pseudo-instruction instances enumerated by TLC'},
             {'name': 'dfu', 'path': 'harness/engines/dfu.py', 'serves_properties': ['C18', 'C19'],
              'kind_free_text': 'TLA+ host+device model (Dfu, DfuDevice) checked exhaustively by TLC; real dfu.cli_main() run in-process against a simulated usb device; recorded request/sleep traces validated by TLC (DfuTrace)'},
         ],
